@@ -13,6 +13,7 @@ Units
 Every execution writes with the real ``Field.to_file`` and reads with the real ``Field.from_file``; the result is
 compared attribute by attribute.  h5py's own view of the file is only used to say where a value was lost.
 """
+import json
 import os
 import shutil
 import tempfile
@@ -413,6 +414,8 @@ def unit_legacy(ctx):
     nv = ctx.choose("dim", [3, 1, 2])
     geo = ctx.choose("corners", ["nano", "unit", "swapped", "int"])
     dt = ctx.choose("array-dtype", ["float64", "float32"])
+    # older versions wrote the subregions of such a file next to it as '<file name>.subregions.json'
+    sidecar = ctx.choose("subregion-side-car", ["absent", "present"]) if geo in ("unit", "nano") and shape[0] >= 2 else "absent"
     if geo == "nano":
         p1, p2 = (0.0, -1.5e-9, 2e-9), tuple(a + 2.5e-9 * k for a, k in zip((0.0, -1.5e-9, 2e-9), shape))
     elif geo == "unit":
@@ -433,6 +436,15 @@ def unit_legacy(ctx):
             gmesh.create_dataset("n", dtype="i4", data=shape)
             gfield.create_dataset("dim", dtype="i4", data=nv)
             gfield.create_dataset("array", data=data)
+        sub = None
+        if sidecar == "present":
+            lo_, hi_ = np.minimum(p1, p2).astype(float), np.maximum(p1, p2).astype(float)
+            cut = lo_.copy(), hi_.copy()
+            cut[1][0] = lo_[0] + (hi_[0] - lo_[0]) / shape[0]     # the first cell layer along x
+            sub = {"first_layer": {"pmin": cut[0].tolist(), "pmax": cut[1].tolist(), "dims": ["x", "y", "z"],
+                                   "units": ["m", "m", "m"], "tolerance_factor": 1e-12}}
+            with open(path + ".subregions.json", "wt", encoding="utf-8") as fh:
+                json.dump(sub, fh)
         ctx.step(1, "from_file(legacy .hdf5)")
         raised, g = C.raises(df.Field.from_file, path)
         ctx.check()
@@ -447,6 +459,13 @@ def unit_legacy(ctx):
                 and np.array_equal(np.asarray(g.mesh.region.pmax, dtype=float), hi)):
             ctx.fail("from_file.hdf5/legacy/region-corners", f"{g.mesh.region.pmin}-{g.mesh.region.pmax} instead of {lo}-{hi}",
                      instance=inst)
+        if sub is not None:
+            ctx.check()
+            got = {k: (np.asarray(v.pmin, dtype=float).tolist(), np.asarray(v.pmax, dtype=float).tolist()) for k, v in g.mesh.subregions.items()}
+            exp = {k: (v["pmin"], v["pmax"]) for k, v in sub.items()}
+            if got != exp:
+                ctx.fail("from_file.hdf5/legacy/subregions-of-the-side-car-not-read", f"side-car '<file>.subregions.json' holds {exp}, "
+                         f"the field read has {got}", instance=inst)
         if tuple(int(i) for i in g.mesh.n) != tuple(shape):
             ctx.fail("from_file.hdf5/legacy/cell-counts", f"{g.mesh.n} instead of {shape}", instance=inst)
         if int(g.nvdim) != nv:
